@@ -23,7 +23,12 @@ CHECKS = [
         "reader's zero-terminated default rule as specification) and the reader of the generic attributes and documentation children "
         "(_parse_generic_attribs: every <doc*> child is read whenever present), of <array> / <type> / <varargs> elements "
         "(_parse_type_simple: kind, C type, fixed size, zero-termination with the reader's default) and of the array length index "
-        "(_parse_type_array_length); return values, records, classes, documents as a "
+        "(_parse_type_array_length). Also both directions for <property> (_write_property / _parse_property: name, readable, writable, "
+        "construct, construct-only, transfer-ownership, setter, getter, default-value) and <field> (_write_field / _parse_field: name, "
+        "readable, writable, bits, private), and type names: _type_to_name drops exactly the qualifier of the namespace being "
+        "written (a namespace whose name merely starts with it stays qualified) and the reader's Namespace.type_from_name gives "
+        "the same GI name back; _write_type writes that name. Assumed data invariants: a property has a transfer mode, a field has "
+        "a type or an anonymous node, the writer runs inside _write_namespace. Return values, records, classes, documents as a "
         "whole and the shipped GIR files are not yet covered.", "DESIGN.md section 4 C07"),
     chk("C09", "The section-offset arithmetic of the real GIObjectInfo accessors (get_property/method/vfunc/constant, signal offset, "
         "field offset walk over embedded callbacks) is proved equal to the ObjectBlob layout of gitypelib-internal.h written as a "
@@ -66,13 +71,27 @@ CHECKS = [
         "changed, every entry is resolved once and in order); plus the emission of property flags by the GIR writer.",
         "Also: _introspect_signals (one Signal per reported signal with its name, run stage, no-recurse / detailed / action / no-hooks "
         "flags and one parameter per <param>, the first being the instance). "
-        "Trusted: givc, ElementTree (findall), Node.create_type, Transformer.resolve_type, list.remove (coarse). The parent-chain fallback, boxed "
-        "pairing, virtual methods and error quarks are not yet under contract; gdump.c is out of scope.", "DESIGN.md section 4 C12"),
+        "GDumpParser.parse: the function named by the get-type symbol of EVERY registered type of the namespace (also records / "
+        "unions paired with a boxed or pointer GType; `intern` excepted) is put on the removal list in namespace order (loop "
+        "invariant + loop postcondition over a ghost position) and exactly the listed nodes are handed to Namespace.remove. "
+        "Trusted: givc, ElementTree (findall, iteration), Node.create_type, Transformer.resolve_type, list.remove (coarse); inside "
+        "parse the merging functions _introspect_type / _introspect_error_quark / _pair_boxed_type / _pair_pointer_type by coarse "
+        "assumed frames, dict iteration order as a ghost key list, namespace nodes have a name and a namespace (assumed data "
+        "invariant), no symbol filter command. The parent-chain fallback, virtual methods and error quarks are not under contract; "
+        "gdump.c is out of scope.", "DESIGN.md section 4 C12"),
     chk("C03", "Contracts on the real identifier-level annotation functions: generic metadata (doc, Since/Deprecated/Stability, skip, "
         "foreign, constructor only on functions, method, set/get-property), block-name selection, and rename-to as a mutually "
-        "consistent shadows/shadowed-by pair without multiple shadowing.",
-        "Trusted: givc, schema incl. ownership regions of dictionaries. Property/signal/field block targeting, virtual invokers, "
-        "copy/free/ref/unref functions and GIR emission are not yet under contract.", "DESIGN.md section 4 C03"),
+        "consistent shadows/shadowed-by pair without multiple shadowing (a rename-to target that is not a function only warns: "
+        "genuine defect repaired by /repo 63076e1). Struct.field and Class:property block targeting, emission of constants / members / "
+        "properties / functions / fields. Callables: finish-func / sync-func / async-func and the dispatch of one block to metadata, "
+        "parameters and return value (_apply_annotations_callable). Virtual invokers (_pass_read_annotations2, loop postconditions): "
+        "the FIRST slot of the owning class named by (virtual SLOT) gets this function as invoker whatever automatic pairing set "
+        "before, every other slot keeps its invoker, the invoker's block is merged into that slot; a (virtual) on a method of a type "
+        "without slots raises nothing (genuine defect repaired by /repo 3f401a8).",
+        "Trusted: givc, schema incl. ownership regions of dictionaries; _apply_annotations_params (assumed, frame incomplete for the "
+        "parameters' attribute dictionaries - stated in its note), _check_instance_parameter; slots pairwise distinct objects and "
+        "scanned slots have a C return type (assumed data invariants). Signals, copy/free/ref/unref functions and the automatic "
+        "pairing _pair_class_virtuals are not under contract.", "DESIGN.md section 4 C03"),
     chk("C18", "Sequential contracts on the real CacheStore functions: an entry older than its source is never reported valid or "
         "served, an entry that fails to unpickle is discarded and never propagated as an exception, load validates before "
         "unpickling and never writes, store writes only a private temp file, completes it before the single rename into place, and "
@@ -121,7 +140,11 @@ CHECKS = [
         "(the object passed in) are never modified - a failing continuation line is ignored rather than half-applied; "
         "parse_comment_blocks raises nothing whatever parse_comment_block does (any Exception becomes one counted error, the other "
         "comments are still parsed, each exactly once and in order). BOUNDED stand-in (not a proof): the line-splitting expression "
-        "of parse_comment_block, extracted from the source on every run, against the rule 'lines end at LF, CR LF or CR only'.",
+        "of parse_comment_block, extracted from the source on every run, against the rule 'lines end at LF, CR LF or CR only'. "
+        "Positions: frame obligation C11.position.never_written_after_construction for ALL functions of giscanner/*.py - a "
+        "message.Position (slots only) is written nowhere but in its constructor, so a diagnostic issued later (validate() runs "
+        "after the block was read) still names the line the object was built for; decided by a write-set census of the real "
+        "source on every run, a failure is replayed natively.",
         "Trusted: givc, schema, MessageLogger.get singleton, Position.format, str.split/strip/lower/isspace as uninterpreted "
         "functions. The line state machine of parse_comment_block, positions/carets and the warn_fatal gate are not under contract; "
         "list mode of _parse_annotations (parse_options=False) is excluded by precondition.", "DESIGN.md section 4 C11"),
